@@ -1609,6 +1609,94 @@ def check_C13(tier, seed):
     return out
 
 
+# ======================================================================================= C14
+def values_check(entries, workname, tlc_procs=4):
+    import traces as tl
+    work = vlib.scratch(workname)
+    items = []
+    for e in entries:
+        for t in e.traces:
+            items.append(tl.values_item(t))
+    tasks = []
+    for ci, part in enumerate(pipeline.chunks(items, tlc_procs)):
+        ip = os.path.join(work, 'val%d.ndjson' % ci)
+        vlib.write_ndjson(ip, part)
+        cfg = pipeline.write_cfg(work, 'val%d' % ci, 'Spec', ['Reported'])
+        tasks.append((lambda ip=ip, cfg=cfg, ci=ci: vlib.run_tlc('TraceValues', cfg, {'VERIF_VALUES': ip}, '%s_val%d' % (workname, ci), workers=4, timeout=1500)))
+    outs = vlib.run_parallel(tasks)
+    probs = []
+    st = tr = 0
+    for r in outs:
+        if r.exit != 0 or r.errors:
+            raise Infra('TraceValues failed: %s\n%s' % (r.errors[:3], r.out[-2000:]))
+        st += r.distinct; tr += r.generated
+        probs += r.lines.get('VALUES', [])
+    return probs, len(items), st, tr, sum(len(i['events']) for i in items)
+
+
+def check_C14(tier, seed):
+    out = Outcome()
+    rng = random.Random(seed)
+    cat = {g.name: g for g in catalogue()}
+    names = ['left_rec', 'paren_list', 'expr_strat', 'nullable_prefix', 'expr_amb', 'err_suite', 'err_stmt', 'err_block', 'two_lists']
+    if tier != 'quick':
+        names += ['closure_memo', 'lr1_not_lalr', 'unit_chain', 'right_rec_empty', 'mutual_rec', 'dangling_else', 'err_nested', 'err_readme', 'err_first', 'err_last']
+    entries = []
+    for n in names:
+        g = cat[n]
+        entries.append(pipeline.gen_entry(g, gid=n + '@val'))
+        if not g.has_error():
+            entries.append(pipeline.gen_entry(g, gid=n + '@valdflt', dflt=sorted(range(0, len(g.rules), 2))))
+    L = 4 if tier == 'quick' else 5
+    for e in entries:
+        ins = ws_inputs(e.g, L if len(e.g.ts) <= 3 else L - 1, [ord('?')], 400 if tier == 'quick' else 3000)      # success, syntax errors, lexical errors, recovery
+        pipeline.add_jobs(e, ins, verbose=False)
+        for s in gengram.sentences(e.g, rng, 5 if tier == 'quick' else 30, max_len=60 if tier == 'quick' else 300):
+            pipeline.add_jobs(e, [s], verbose=False, tag='s')
+            if s:
+                m = list(s); m[rng.randrange(len(m))] = rng.choice([ord(c) for c in e.g.ts] + [ord('?')])
+                pipeline.add_jobs(e, [m], verbose=False, tag='m')
+    res, work = prun.run(entries, 'C14', design_L=None, do_product=False, tlc_procs=4 if tier == 'quick' else 8, tlc_workers=4 if tier == 'quick' else 2, env={'VERIF_TRACK': '1'})
+    judge_traces(out, entries, res, {'functor', 'tree', 'verdict', 'threw'}, {e.gid for e in entries})
+    probs, ntr, st, tr, nev = values_check(entries, 'C14v', tlc_procs=4 if tier == 'quick' else 8)
+    by_id = {t['id']: (e, t) for e in entries for t in e.traces}
+    per = collections.Counter()
+    for d in probs:
+        e, t = by_id[d['id']]
+        per[(e.g.name, d['why'][0])] += 1
+        per[d['why'][0]] += 1
+        if per[(e.g.name, d['why'][0])] > 1 or per[d['why'][0]] > 3:
+            continue
+        v = trace_violation(e, {'id': d['id'], 'g': e.gid, 'why': d['why'], 'trace': t}, 'lifecycle')
+        v['summary']['class'] = 'value lifecycle: ' + d['why'][0]
+        v['summary']['real_event'] = None
+        out.violations.append(v)
+    # move-only value types (term values and functor results) must compile and work
+    src = os.path.join(vlib.HARNESS, 'moveonly.cpp')
+    exe = os.path.join(work, 'moveonly')
+    r = subprocess.run(['g++', '-std=c++17', '-I' + os.path.join(vlib.REPO, 'include'), src, '-o', exe], capture_output=True, text=True, timeout=600)
+    if r.returncode != 0:
+        import re as _re
+        m = _re.search(r'ctpg\.hpp:(\d+):\d+: error: ([^\n]*)', r.stderr)
+        out.violations.append({'summary': {'class': 'a parser whose term values are move-only does not compile', 'where': m.group(0)[:200] if m else r.stderr[:300]}, 'kind': 'moveonly'})
+    else:
+        r2 = subprocess.run([exe], capture_output=True, text=True, timeout=60)
+        if r2.returncode != 0:
+            out.violations.append({'summary': {'class': 'move-only parser misbehaves', 'output': r2.stdout[-200:]}, 'kind': 'moveonly'})
+    out.violations = out.violations[:12]
+    kinds = collections.Counter(ev[0] for e in entries for t in e.traces for ev in t['events'] if ev[0].startswith('v_'))
+    out.coverage = base_coverage(res, {
+        'grammars': len(entries), 'lifecycle_traces_validated': ntr, 'lifecycle_events_validated': nev, 'lifecycle_event_kinds': dict(kinds),
+        'paths': {'accepted': sum(1 for e in entries for t in e.traces if t['ok']), 'failed': sum(1 for e in entries for t in e.traces if not t['ok']),
+                  'with_recovery': sum(1 for e in entries if e.g.has_error() for t in e.traces)},
+        'move_only_translation_unit': 'harness/moveonly.cpp', 'bounds': {'L_all_inputs_incl_unknown_byte': L},
+        'samples': [{'trace': d['id'], 'events': [ev for ev in by_id[d['id']][1]['events'] if ev[0].startswith('v_')][:10]} for d in [{'id': entries[0].traces[5]['id']}]], 'exhaustive': False})
+    out.coverage['states'] += st
+    out.coverage['transitions'] += tr
+    out.assumptions = std_assumptions() + ['object identity = ids assigned by the tracked value type (harness Node under VERIF_TRACK); payload = derivation-tree node id']
+    return out
+
+
 # ======================================================================================= replay
 def replay(pid, path):
     v = json.load(open(path))
@@ -1621,6 +1709,10 @@ def replay(pid, path):
         print('library accepts:', recs[0] and recs[0]['valid'], ' ref mismatches:', len(ref.get('p0', [])), ' model mismatches:', len(model.get('p0', [])), ' syntax:', [d['why'] for d in probs])
         if crashed or ref or model or static or probs:
             out.violations.append(v)
+        return out
+    if v.get('kind') == 'moveonly':
+        print('re-run ./check C14 (compiles harness/moveonly.cpp against the working tree)')
+        out.violations.append(v)
         return out
     if v.get('kind') == 'caps':
         print('capacity witnesses are configurations of the check itself: re-run ./check C12')
